@@ -42,6 +42,18 @@ NEEDS = {
             "a clone taken at or after the next() call that handled end-of-input, in a rule set where end-of-input produces an item (`$` rule, or non-Init set)"),
  "C15-m2": ("C15", "codegen: thread_local 'last hit' cache shared by all search tables and all lexer values in the generated binary_search",
             "a lexer with at least two binary-search tables (classes with many ranges), one instance ending right after a class hit, then another instance (clone or a second run) looking up a character of that range in a different table"),
+ "C03-m4": ("C03", "codegen: new is_inlined() (single predecessor AND <= MAX_GUARD_SIZE ranges) used for arm generation, but ctx.rs renumber_state still counts every single-predecessor state as inlined: two states get the same final index",
+            "a non-initial single-predecessor state with more than 9 range transitions (big class right after a fixed prefix) directly followed in DFA order by a rule-set entry state: `switch` to that set runs the other state's code"),
+ "C05-m3": ("C05", "nfa_to_dfa: the end-of-input transition is only created when the `$` target closure is not already contained in the current NFA state set",
+            "a rule with an optional `$` at an accepting position (`X $?`) and an input that ends exactly there, in a non-Init set / with an Init `$` rule / with an earlier rule for the same lexeme"),
+ "C06-m3": ("C06", "runtime: set_accepting_state() re-uses the saved iterator (advancing it by one) when __state is unchanged since the last save, assuming exactly one character was consumed",
+            "two accepting positions of one token more than one character apart under the same __state (inlined chains, cycles through a non-accepting state) and a failed longer attempt that rewinds to the later one"),
+ "C09-m3": ("C09", "backtrack analysis: a state reached again on an accepting path gets its flag raised but is not re-expanded, so its successors stay unflagged",
+            "a DFA state with an accepting and a non-accepting predecessor visited first through the latter, a failure two characters past the short match (stale last_match survives the error), then only unlexable text until a state that backtracks with nothing saved: the lexer jumps back and re-lexes"),
+ "C10-m3": ("C10", "codegen: set_accepting_state() is not emitted for an accepting state whose `_` transition is a direct unconditional accept",
+            "a rule r plus a longer rule `r _` whose end state has no further transitions, no `$` rule after r, and an input that ends exactly after r: the selected match's action never runs (or an abandoned shorter candidate's does)"),
+ "C15-m3": ("C15", "codegen: each generated right-context function keeps a one-entry memo in a `static`, keyed by the iterator's remaining length",
+            "a rule with a right context, and two lexer values of the same definition (a second run, or an unrelated lexer stepped between original and clone) evaluating it at equal remaining length but different lookahead text; &str input (size hint)"),
 }
 def main():
     for d in sorted(os.listdir(ROOT)):
